@@ -1,7 +1,7 @@
 (* C18 - Statement.get_type() names the statement's leading DML/DDL keyword. *)
 From SqlModel Require Import Base PyStr Node.
 From SqlModel.Acc Require Import Accessors AccFacts.
-From SqlModel.Inst Require Import CaseInv.
+From SqlModel.Inst Require Import CaseInv C18Fin.
 
 Definition C18_direct := get_type_keyword.
 Definition C18_cte := get_type_cte.
@@ -16,3 +16,12 @@ Print Assumptions get_type_cte.
 Print Assumptions get_type_total.
 Print Assumptions C18_rest_ignored_refuted.
 Print Assumptions C18_create_or_replace_refuted.
+
+(* pipeline level, finite family (bound in the statement): every DML/DDL word of the regenerated dictionaries x
+   {as listed, lower case} x 6 prefixes (whitespace/comments) x 3 separators x 18 continuations, through lexer, splitter and
+   all 25 grouping passes: get_type() of the first statement is the upper-cased keyword *)
+Definition C18_pipeline_fin_thm := C18Fin.C18_pipeline_fin.
+Definition C18_pipeline_fin_member_thm := C18Fin.C18_pipeline_fin_member.
+Definition C18_create_or_replace_fin_thm := C18Fin.C18_create_or_replace_fin.
+Print Assumptions C18Fin.C18_pipeline_fin_member.
+Print Assumptions C18Fin.C18_create_or_replace_fin.
